@@ -6,6 +6,7 @@ import AuthProofs.StoreSeq
 import AuthModel.Oidc.Sched
 import AuthProofs.RedisCmd
 import AuthProofs.Discovery
+import AuthProofs.Finality
 namespace AuthProps.C09
 open AuthModel AuthModel.Oidc
 
@@ -103,6 +104,50 @@ theorem resurrection_inflight_ok : (s6.2.1.answer.map (·.code)) = some cOK := b
     (known finding C09-refresh-after-logout; the harness replays exactly this schedule on the real handler). -/
 theorem logout_resurrection : probeB.2.1.code = cOK := by decide
 
+/-! ### every interleaving: the characterisation behind the recorded finding -/
+
+/-- FINALITY, FOR EVERY SCHEDULE, UP TO ONE SHAPE. Any number of checks of one filter run concurrently, interleaved
+    in any way at the granularity of store calls, on a store that answers like the session map (sessions may also expire,
+    failed writes may or may not have been applied, reads may miss). If the store acknowledged `RemoveSession(sid)` -
+    the logout is answered only after that (`logout_only_after_removal`) - and LATER returns tokens for `sid` - an OK
+    needs that (`ok_requires_tokens_read`) - then in between some thread wrote tokens under `sid`, and that same thread
+    had read `sid` BEFORE the removal: tokens (a refresh in flight across the logout: the recorded finding
+    C09-refresh-after-logout) or login state (a login in flight: its callback completes a new interactive login).
+    Nothing else can bring a removed session back: whoever starts reading after the removal finds nothing, and login
+    state is only written under ids the generator has just produced (`hfresh`: none of them is `sid`, see C06). -/
+theorem finality_characterisation (cfg : Cfg) (o : Oracles) (reqOf : Nat → Req) (prevOf : Nat → Headers)
+    (m0 mEnd : SpecMap) (pre mid post : List Ev) (eR eB : Ev) (sid : Str) (tB : Tokens)
+    (hruns : ∀ t, IsRun (process cfg o (reqOf t) (prevOf t)) (threadTrace (pre ++ eR :: (mid ++ eB :: post)) t))
+    (hstore : Reach m0 (pre ++ eR :: (mid ++ eB :: post)) mEnd)
+    (hfresh : ∀ e ∈ pre ++ eR :: (mid ++ eB :: post), e.act = .gen → ∀ n s v, e.res ≠ .gen sid n s v)
+    (hR : eR.act = .removeSession sid ∧ eR.res = .done true)
+    (hB : eB.act = .getTok sid ∧ eB.res = .tok (.ok (some tB))) :
+    ∃ mid1 eP mid2 t, mid = mid1 ++ eP :: mid2 ∧ eP.act = .setTok sid t ∧
+      (∀ e ∈ mid1, isSetTok sid e.act = false) ∧
+      ∃ q ∈ pre, q.tid = eP.tid ∧ isReadSome sid q :=
+  late_tokens_shape cfg o reqOf prevOf m0 mEnd pre mid post eR eB sid tB hruns hstore hfresh hR hB
+
+/- Non-vacuity: the witness schedule above, as a global execution of three threads (A = 1, L = 2, B = 3), satisfies
+   every hypothesis of `finality_characterisation`. -/
+def evsOf (tid : Nat) (l : List (Act × ARes)) : List Ev := l.map fun x => { tid := tid, act := x.1, res := x.2 }
+def preW : List Ev := evsOf 1 (Thread.spawn 200 scA (process cfgW oW appW)).2 ++ evsOf 1 s1.2.2
+def eRW : Ev := { tid := 2, act := .removeSession (B "s"), res := .done true }
+def midW : List Ev := evsOf 1 s3.2.2 ++ evsOf 1 s4.2.2 ++ evsOf 1 s5.2.2 ++ evsOf 1 s6.2.2
+def eBW : Ev := { tid := 3, act := .getTok (B "s"),
+                  res := .tok (.ok (some { idToken := B "T1", accessToken := [], refreshToken := B "r1", accessExp := none })) }
+def trW : List Ev := preW ++ eRW :: (midW ++ eBW :: [])
+def m0W : SpecMap := Spec.setTok (fun _ => none) (B "s") { idToken := B "T0", refreshToken := B "r0" } 0
+def reqW : Nat → Req := fun t => if t = 2 then logoutW else appW
+example : IsRun (process cfgW oW (reqW 1) []) (threadTrace trW 1) ∧ IsRun (process cfgW oW (reqW 2) []) (threadTrace trW 2) ∧
+    IsRun (process cfgW oW (reqW 3) []) (threadTrace trW 3) := by decide
+example : (trW.filter fun e => e.tid ≠ 1 ∧ e.tid ≠ 2 ∧ e.tid ≠ 3) = [] := by decide   -- no other thread acts
+example : ∃ mEnd, Reach m0W trW mEnd := by
+  have h : (replay m0W trW).isSome = true := by decide
+  cases hr : replay m0W trW with
+  | none => simp [hr] at h
+  | some m' => exact ⟨m', replay_sound _ _ _ hr⟩
+example : eRW.act = .removeSession (B "s") ∧ eRW.res = .done true := ⟨rfl, rfl⟩
+
 /-! ### removal under command-level Redis faults; the end-session URI under endpoint discovery -/
 section FaultsAndDiscovery
 open RedisCmd Redis
@@ -169,3 +214,4 @@ end AuthProps.C09
 #print axioms AuthProps.C09.redis_nothing_after_removal
 #print axioms AuthProps.C09.logout_uri_configured_or_discovered
 #print axioms AuthProps.C09.discovery_refuses_logout_without_uri
+#print axioms AuthProps.C09.finality_characterisation
